@@ -208,8 +208,9 @@ def uninstallGlobal (c : FastOps) (node : Node) (a : Cursor) : FastOps :=
   let hasNext := match node.nextP with
     | some q => (c1.getNode q).isSome
     | none => false
-  if hasNext then c1.setPrevP (node.nextP.getD 0) a.lastP
-  else
+  match hasNext with
+  | true => c1.setPrevP (node.nextP.getD 0) a.lastP
+  | false =>
     c1.setPEnds (match c1.pEnds with
         | some (head, _) => node.previousP.map (fun nt => (head, nt))
         | none => none)
